@@ -108,6 +108,7 @@ type rtoken struct {
 	space bool // preceded by whitespace
 	bad   bool // literal that failed to decode
 	big   bool // number does not fit in int
+	open  bool // validity left open by the specification
 }
 
 func isIdentStart(c byte) bool { return c >= 'A' && c <= 'Z' || c >= 'a' && c <= 'z' || c == '_' }
@@ -182,7 +183,7 @@ func refLex(s string) ([]rtoken, bool) {
 				add(rtoken{typ: rtRaw, text: s[i : j+1], str: refDecodeRaw(body)})
 			case '"':
 				v, ok := refDecodeQuoted(body)
-				add(rtoken{typ: rtQuoted, text: s[i : j+1], str: v, bad: !ok})
+				add(rtoken{typ: rtQuoted, text: s[i : j+1], str: v, bad: !ok, open: !ok && refSurrogateOpen(body)})
 			default:
 				v, ok := refDecodeJSON(body)
 				add(rtoken{typ: rtLiteral, text: s[i : j+1], val: v, bad: !ok})
@@ -300,6 +301,40 @@ func refDecodeQuoted(body string) (string, bool) {
 		return "", false
 	}
 	return v, true
+}
+
+// refSurrogateOpen: a high surrogate escape followed by another \u escape that
+// is not a low surrogate - whether that is an error or U+FFFD is left open.
+func refSurrogateOpen(body string) bool {
+	for i := 0; i+12 <= len(body); i++ {
+		if body[i] == '\\' && body[i+1] == '\\' {
+			i++
+			continue
+		}
+		if body[i] == '\\' && body[i+1] == 'u' && body[i+6] == '\\' && body[i+7] == 'u' {
+			hi := 0
+			ok := true
+			for k := 2; k < 6; k++ {
+				h := hexVal(body[i+k])
+				if h < 0 {
+					ok = false
+				}
+				hi = hi*16 + h
+			}
+			lo := 0
+			for k := 8; k < 12; k++ {
+				h := hexVal(body[i+k])
+				if h < 0 {
+					ok = false
+				}
+				lo = lo*16 + h
+			}
+			if ok && hi >= 0xD800 && hi <= 0xDBFF && (lo < 0xDC00 || lo > 0xDFFF) {
+				return true
+			}
+		}
+	}
+	return false
 }
 
 func hexVal(c byte) int {
@@ -442,16 +477,44 @@ type rparser struct {
 	toks []rtoken
 	pos  int
 	ec   int
+	// lazy token source (token harness): text of source token i, "" at the end
+	src   func(i int) string
+	nsrc  int
+	ended bool
 }
 
-func (p *rparser) cur() rtoken { return p.toks[p.pos] }
+// need makes sure token index i exists (pulling from the lazy source).
+func (p *rparser) need(i int) {
+	for p.src != nil && !p.ended && len(p.toks) <= i {
+		text := p.src(p.nsrc)
+		p.nsrc++
+		if text == "" {
+			p.ended = true
+			p.toks = append(p.toks, rtoken{typ: rtEOF})
+			break
+		}
+		ts, ok := refLex(text)
+		if !ok || len(ts) < 2 {
+			p.ended = true
+			p.toks = append(p.toks, rtoken{typ: -1})
+			break
+		}
+		ts = ts[:len(ts)-1] // drop EOF
+		ts[0].space = true
+		p.toks = append(p.toks, ts...)
+	}
+}
+
+func (p *rparser) cur() rtoken { return p.la(0) }
 func (p *rparser) la(n int) rtoken {
+	p.need(p.pos + n)
 	if p.pos+n < len(p.toks) {
 		return p.toks[p.pos+n]
 	}
 	return rtoken{typ: rtEOF}
 }
 func (p *rparser) advance() {
+	p.need(p.pos + 1)
 	if p.pos < len(p.toks)-1 {
 		p.pos++
 	}
@@ -490,8 +553,16 @@ func refParse(s string) (*rnode, int) {
 	return refParseTokens(toks)
 }
 
+// refParseLazy parses a token sequence that is produced on demand.
+func refParseLazy(src func(i int) string) (*rnode, int) {
+	return refParseWith(&rparser{src: src})
+}
+
 func refParseTokens(toks []rtoken) (*rnode, int) {
-	p := &rparser{toks: toks}
+	return refParseWith(&rparser{toks: toks})
+}
+
+func refParseWith(p *rparser) (*rnode, int) {
 	n := p.expression(0)
 	if p.ec == ecNone && p.cur().typ != rtEOF {
 		p.fail(ecSyntax)
@@ -530,8 +601,15 @@ func (p *rparser) nud(t rtoken) *rnode {
 		if t.str == "let" && p.cur().typ == rtVariable {
 			return p.parseLet()
 		}
+		if t.str == "let" || t.str == "in" {
+			// contextual keywords used as plain identifiers: left open
+			return p.fail(ecUnspecified)
+		}
 		return &rnode{kind: rnField, str: t.str}
 	case rtQuoted:
+		if t.open {
+			return p.fail(ecUnspecified)
+		}
 		if t.bad {
 			return p.fail(ecSyntax)
 		}
@@ -574,9 +652,6 @@ func (p *rparser) nud(t rtoken) *rnode {
 			op = "+"
 		}
 		return &rnode{kind: rnUnary, str: op, kids: []*rnode{e}}
-	case rtExpref:
-		e := p.expression(0)
-		return &rnode{kind: rnExpref, kids: []*rnode{e}}
 	case rtLbracket:
 		c := p.cur()
 		if c.typ == rtNumber || c.typ == rtColon {
@@ -635,7 +710,13 @@ func (p *rparser) led(t rtoken, left *rnode) *rnode {
 		}
 		var args []*rnode
 		for p.ec == ecNone && p.cur().typ != rtRparen {
-			args = append(args, p.expression(0))
+			if p.cur().typ == rtExpref {
+				// expression-type = "&" expression : only as a function argument
+				p.advance()
+				args = append(args, &rnode{kind: rnExpref, kids: []*rnode{p.expression(0)}})
+			} else {
+				args = append(args, p.expression(0))
+			}
 			if p.cur().typ == rtComma {
 				p.advance()
 				if p.cur().typ == rtRparen {
